@@ -941,7 +941,8 @@ def fam_C12(rng, tier):
     # round trips of reachable collections (with pending writes)
     out += hist_cases(rng, tier, 'ssz-of-histories', scale(tier, 40, 200), 3, 25,
                       weights={'sszrt': 14, 'read': 3}, preds=('ssz_roundtrip',))
-    for cfg in pick_configs(rng, scale(tier, 90, 500)):
+    # (the deepest capacities too: byte-length arithmetic against N must not overflow)
+    for cfg in pick_configs(rng, scale(tier, 90, 500)) + [(k, n, 'btree') for (k, n) in HUGE] * 2:
         kind, N, m = cfg
         r = sub(rng)
         maxl = min(N, 24)
@@ -1104,7 +1105,7 @@ def fam_C15(rng, tier):
             g.observe = obs
             lines = g.run(22)
             if huge:
-                lines += ['apply 0', 'root 0']
+                lines += ['apply 0', 'root 0', 'sszmeta vec', 'sszmeta list']
             out.append(Case(lines, 'faults' + ('-huge-N' if huge else ''), ('wellformed', 'error_atomic'),
                             {'cfg': cfg}))
     out += motif_histories(rng, tier)
@@ -1169,6 +1170,9 @@ def fam_C16(rng, tier):
             for o in ops:
                 lines.append('T %d %s' % (t, o))
         lines.append('conc-end')
+        # the memo state after the block does not depend on the schedule: whatever was hashed by some
+        # thread is memoised now (observed before anything is hashed again)
+        lines.append('dump 0 1 2 3')
         for h in shared:
             lines += ['root %d' % h, 'tovec %d' % h]
         lines.append('dump 0 1 2 3')
@@ -1217,8 +1221,10 @@ def conc_heavy(rng, tier):
                 for o in ops:
                     lines.append('T %d %s' % (t, o))
             lines.append('conc-end')
+            if kind != 'nest':
+                lines.append('dump 0 1')
             lines += ['root 0', 'root 1', 'len 0']
-        out.append(Case(lines, 'threads-heavy-' + kind, ('no_deadlock',), {'cfg': cfg, 'threads': 16}))
+        out.append(Case(lines, 'threads-heavy-' + kind, ('no_deadlock', 'memo'), {'cfg': cfg, 'threads': 16}))
     # many threads hash fresh, private, very deep and nearly empty trees at once (zero subtrees deeper
     # than the precomputed table are computed on the fly)
     for cfg in [('u64', 2 ** 60, 'btree'), ('h256', 2 ** 63, 'btree'), ('u64', 2 ** 63, 'btree')] * scale(tier, 16, 24):
